@@ -17,7 +17,7 @@ RULE = (
 )
 ASSUMPTIONS = [
     "co-running strategies share streams (same listener arguments) and one simulated client without transaction limit",
-    "80% World A; 20% World B live sessions (exception injected into check/process market book, process_new_market, process_orders during current-orders processing, and custom-event callbacks; delivery of every market update to the other strategies checked); sports-data and raw-data callbacks are NOT covered",
+    "80% World A; 20% World B live sessions (exception injected into check/process market book, process_new_market, process_orders during current-orders processing, custom-event callbacks and, in a third of them, process_raw_data of a raw-data (DataStream) strategy; delivery of every market update / raw datum to the other strategies checked); in another quarter check_sports_data/process_sports_data of a race-subscription strategy (rcm messages through the real bflw race stream; cricket data is not generated)",
     "process_closed_market is not among the callbacks the property lists and is not injected",
 ]
 from . import C11 as _c11
@@ -65,6 +65,20 @@ def generate_live(rng):
         for mi in range(len(sc["markets"])):
             livegen.gen_actions(rng, sc["markets"][mi], "L1", mix)
     sc["inject"] = {"strategy": "L0", "kind": rng.choice(["check", "book", "orders", "orders", "new"]), "nth": rng.randint(1, 6), "flumine": rng.random() < 0.3}
+    if rng.random() < 0.35:
+        # raw-data (recorder) strategies beside the trading ones; the exception goes into process_raw_data of the first
+        for n in ("R3", "R4"):
+            sc["strategies"].append({"name": n, "markets": list(range(len(sc["markets"]))), "client": 0, "data_stream": True})
+        sc["inject"] = {"strategy": "R3", "kind": "raw", "nth": rng.randint(1, 8), "flumine": rng.random() < 0.3}
+    elif rng.random() < 0.4:
+        # sports (race) data through the real bflw race stream: S5 and S6 subscribe, the exception goes into S5's check or process callback
+        for n in ("S5", "S6"):
+            sc["strategies"].append({"name": n, "markets": list(range(len(sc["markets"]))), "client": 0, "sports": True})
+        for m in sc["markets"]:
+            for k, u in enumerate(m["updates"]):
+                if u["st"] != "CLOSED" and rng.random() < 0.6:
+                    u["rcm"] = k + 1
+        sc["inject"] = {"strategy": "S5", "kind": rng.choice(["sports_check", "sports"]), "nth": rng.randint(1, 6), "flumine": rng.random() < 0.3}
     sc["custom_events"] = [{"id": "ce%d" % k, "after_mcm": rng.randint(1, 6), "raise": rng.random() < 0.6, "flumine": rng.random() < 0.3} for k in range(rng.choice([0, 1, 2]))]
     sc["live_c13"] = True
     return sc
@@ -87,6 +101,18 @@ def execute_live(scenario):
             continue
         for m in scenario["markets"]:
             n = run.market_cursor[m["id"]]
+            if a.spec.get("data_stream"):
+                exp = [("raw", m["id"], u["pt"]) for u in m["updates"][:n]]
+                got = [c for c in a.calls if c[0] == "raw" and c[1] == m["id"]]
+                if got != exp:
+                    res.violate(ID, "C13.delivery", "live:other-raw-data-strategy-delivery-changed:exception-in-%s" % scenario["inject"]["kind"], strategy=a.name, expected=len(exp), got=len(got), fired=fired)
+                continue
+            if a.spec.get("sports"):
+                for kind in ("sports_check", "sports"):
+                    exp = [(kind, m["id"], u["pt"]) for u in m["updates"][:n] if u.get("rcm")]
+                    got = [c for c in a.calls if c[0] == kind and c[1] == m["id"]]
+                    if got != exp:
+                        res.violate(ID, "C13.delivery", "live:other-sports-data-strategy-delivery-changed:exception-in-%s" % scenario["inject"]["kind"], strategy=a.name, callback=kind, expected=len(exp), got=len(got), fired=fired)
             exp = [("check", m["id"], u["pt"]) for u in m["updates"][:n] if u["st"] != "CLOSED"]
             got = [c for c in a.calls if c[0] == "check" and c[1] == m["id"]]
             if got != exp:
